@@ -158,8 +158,25 @@ func Route(v *vrt.Ctx) {
 	if caught {
 		out, rerr := vmi.Render(ctx)
 		v.Assert(rerr == nil, "C03/catch-renders")
-		v.Assert(out == "invalid input: '"+string(in)+"'\ncatch", "C03/catch-shows-the-input")
+		// the page is the catch node's template under a message that shows
+		// the input (the wording of the message is not part of the property)
+		tail := "\ncatch"
+		v.Assert(len(out) > len(tail)+len(in) && out[len(out)-len(tail):] == tail, "C03/catch-shows-the-input")
+		v.Assert(contains(v, out[:len(out)-len(tail)], string(in)), "C03/catch-shows-the-input")
 	}
+}
+
+// contains: needle occurs in hay (no forking on symbolic bytes).
+func contains(v *vrt.Ctx, hay, needle string) bool {
+	r := false
+	for i := 0; i+len(needle) <= len(hay); i++ {
+		m := true
+		for j := 0; j < len(needle); j++ {
+			m = v.And(m, hay[i+j] == needle[j])
+		}
+		r = v.Or(r, m)
+	}
+	return r
 }
 
 func codeCalls(rs *app.Res) int {
